@@ -31,7 +31,7 @@ def tryPC : Outer → PC → Bool
       | _ => false
   | .tryRecv, pc | .tryRecvView, pc =>
       match pc with
-      | .r0 | .u1 .recvStart | .u2 .recvStart _ | .u3 .recvStart _ | .la1 | .la2 | .is1 _ | .r1 _ _ | .r2 _ _
+      | .r0 | .u1 .recvStart | .u2 .recvStart _ | .u3 .recvStart _ | .la1 | .la2 | .is1 | .r1 _ _ | .r2 _ _
       | .r3 _ _ | .r3b _ _ | .r4 _ | .r5 _ _ | .r6 _ | .r7 _ | .rd _ _ | .rc _ _ _ | .r8 _ _ | .r9 _ _ _ | .fg _ _
       | .v1 _ | .v2 _ | .v3 _ | .vw _ _ | .vd _ _ | .v4 _ _ | .ret _ => true
       | _ => false
@@ -65,9 +65,8 @@ def mu (σ : St) (t : Nat) : Nat :=
   | .rf _ h => 7 + pen h
   | .hd _ h => 6 + pen h
   | .tg _ => 5 | .wr _ _ => 4 | .ts _ _ => 3 | .od _ => 2
-  | .r0 => 16 | .u1 .recvStart => 15 | .u2 .recvStart _ => 14 | .u3 .recvStart _ => 13
-  | .la1 => 12 | .la2 => 11
-  | .is1 p => 10 + penr p
+  | .r0 => 17 | .u1 .recvStart => 16 | .u2 .recvStart _ => 15 | .u3 .recvStart _ => 14
+  | .is1 => 13 | .la1 => 12 | .la2 => 11
   | .r1 p _ => 9 + penr p
   | .r4 p => 7 + penr p
   | .r5 p _ => 6 + penr p
